@@ -3127,6 +3127,12 @@ func (te *TemplateEngine) processImagePlaceholdersInTable(table *Table, data *Te
 					}
 				}
 			}
+			// 嵌套表格里的图片占位符同样要处理
+			for nestedIdx := range cell.Tables {
+				if err := te.processImagePlaceholdersInTable(&cell.Tables[nestedIdx], data, doc); err != nil {
+					return err
+				}
+			}
 		}
 	}
 	return nil
